@@ -378,6 +378,12 @@ pub struct Report {
     pub extra: Map<String, Value>,
     pub exhaustive: Option<bool>,
     pub harness_errors: Vec<String>,
+    /// progress marker `<out>.cur`: the index of the case being worked on, so that the driver can replay the
+    /// case a shard died in (driver/triage.py)
+    marker: Option<std::fs::File>,
+    case_started: Option<std::time::Instant>,
+    pub max_case_us: u64,
+    pub max_case_idx: u64,
 }
 
 impl Report {
@@ -397,18 +403,51 @@ impl Report {
             extra: Map::new(),
             exhaustive: None,
             harness_errors: Vec::new(),
+            marker: None,
+            case_started: None,
+            max_case_us: 0,
+            max_case_idx: 0,
+        }
+    }
+
+    pub fn open_marker(&mut self, out: Option<&str>) {
+        if let Some(out) = out {
+            self.marker = std::fs::File::create(format!("{out}.cur")).ok();
+        }
+    }
+
+    pub fn finish_cases(&mut self) {
+        self.close_case();
+    }
+
+    fn close_case(&mut self) {
+        if let Some(t) = self.case_started.take() {
+            let us = t.elapsed().as_micros() as u64;
+            if us > self.max_case_us {
+                self.max_case_us = us;
+                self.max_case_idx = self.case_idx;
+            }
         }
     }
 
     /// Start the next case. Returns false when a replay filter deselects it.
     #[inline]
     pub fn begin(&mut self) -> bool {
+        self.close_case();
         self.case_idx += 1;
         CURRENT_CASE.with(|c| c.set(self.case_idx));
-        match self.cfg.only {
+        let selected = match self.cfg.only {
             None => true,
             Some(i) => i == self.case_idx,
+        };
+        if selected {
+            if let Some(f) = &self.marker {
+                use std::os::unix::fs::FileExt;
+                let _ = f.write_at(&self.case_idx.to_le_bytes(), 0);
+            }
+            self.case_started = Some(std::time::Instant::now());
         }
+        selected
     }
 
     #[inline]
@@ -522,6 +561,8 @@ impl Report {
             "build": self.cfg.build,
             "evaluations": self.evaluations,
             "cases": self.case_idx,
+            "max_case_ms": self.max_case_us as f64 / 1000.0,
+            "max_case_idx": self.max_case_idx,
             "distinct_nontrivial": self.distinct.len() as u64 + self.distinct_direct,
             "distinct_uncounted_after_cap": self.distinct_overflow,
             "counters": self.counters,
